@@ -1,5 +1,6 @@
 """C11 - suspicion timeout takes effect iff unrefuted; Down is final until forgotten."""
 from .lib import query as q
+from . import common as _cmn
 from .lib.effects import Effects
 from .lib.symx import show
 from . import c01, c08, c09
@@ -263,7 +264,7 @@ def r4_effects_when_applied(ctx, f, rep):
             good = good and aor[0]['args'][0] == ('ref', q.self_field('updates'), True)
             d = aor[0]['args'][2]
             ser = [c for c in p.calls() if c['res'] == 'Foca::serialize_member']
-            good = good and len(ser) == 1 and ser[0]['args'][1] == ('param', 0, 3)
+            good = good and len(ser) == 1 and _cmn.member_arg(f, ser[0]) == ('param', 0, 3)
         if tm:
             t = tm[0]['args'][1]
             good = good and q.variant_name(t) == 'RemoveDown' and q.loads_self_field(tm[0]['args'][2], 'config', 'remove_down_after')
@@ -295,6 +296,10 @@ def check(ctx):
         _common.check_derives(f, rep, 'C11-R0')
         r1_guards(ctx, f, rep)
         r2_creation(ctx, f, rep)
+        # ... and it is created whenever a failed round leaves the member active - whether or not this very update changed
+        # anything (a record that is already Suspect, with no live timer of this epoch, still needs its timeout): C12-R5
+        from . import c12 as _c12
+        _c12.r5_suspect_once(ctx, f, c09._Rename(rep, 'C12-R5', 'C11-R2'))
         r3_no_effect_unless_applied(ctx, f, rep)
         r4_effects_when_applied(ctx, f, rep)
         # the queued Down update stays queued: an entry leaves the backlog only by being transmitted or by being
